@@ -386,10 +386,7 @@ func runParserHistory(h reuseHist, inputs []string) reuseOut {
 			if d := diffFields(names, snapshot(q1), freshSnap); len(d) > 0 && len(out.StateFail) < 4 {
 				out.StateFail = append(out.StateFail, fmt.Sprintf("after op %d (%s): %s", step, op.Op, strings.Join(d, "; ")))
 			}
-			if q2 != p {
-				out.PoolOther++
-			}
-			p = q2
+			p = q2 // by design possibly the other holder's instance
 			boundary = true
 		default:
 			out.Panic = "unknown op " + op.Op
@@ -552,10 +549,7 @@ func runTokenizerHistory(h reuseHist, inputs []string) reuseOut {
 			if d := diffFields(names, snapshot(q1), freshSnap); len(d) > 0 && len(out.StateFail) < 4 {
 				out.StateFail = append(out.StateFail, fmt.Sprintf("after op %d (%s): %s", step, op.Op, strings.Join(d, "; ")))
 			}
-			if q2 != t {
-				out.PoolOther++
-			}
-			t = q2
+			t = q2 // by design possibly the other holder's instance
 			boundary = true
 		default:
 			out.Panic = "unknown op " + op.Op
